@@ -683,8 +683,10 @@ func precedenceRule(p *Prog, r *Report, id string, first ...string) {
 	}
 }
 
-func c11R3(p *Prog, r *Report) {
-	r.Rule("C11.R3", "T → *U is never nil: the *JenID returned on the success paths of TargetPointer.Build and BasicTargetPointerRule.Build is `&` of a fresh local (JenID.Pointer on a converted value, or jen.Op(\"&\").Id(<allocator name>)) or the constructor's variable; JenID.Pointer always yields an address-of expression", 3)
+func c11R3(p *Prog, r *Report) { targetPointerNonNilRule(p, r, "C11.R3") }
+
+func targetPointerNonNilRule(p *Prog, r *Report, id string) {
+	r.Rule(id, "T → *U is never nil: the *JenID returned on the success paths of TargetPointer.Build and BasicTargetPointerRule.Build is `&` of a fresh local (JenID.Pointer on a converted value, or jen.Op(\"&\").Id(<allocator name>)) or the constructor's variable; JenID.Pointer always yields an address-of expression", 3)
 	if fi := p.Func("xtype.(*JenID).Pointer"); fi != nil {
 		info := fi.Pkg.TypesInfo
 		okAll, n := true, 0
